@@ -227,6 +227,34 @@ pub fn topic_filter_bad_len3(value: &str) -> (bool, u16) {
     }
 }
 
+// ---- C07 prefix scenarios: *asserting* valid-class stubs --------------------------------------
+// The prefix scenarios assume every validated field of the complete frame valid in their prelude,
+// so a validator that runs on a completely read field always sees valid bytes.  These stubs keep
+// the constant verdict "valid" (R3d) but *assert* instead of assume: a decoder that validates an
+// operand before it has been read completely (a partly filled, zero-padded buffer) reaches the
+// assertion with bytes that are not a field of the frame.  An assuming stub would prune exactly
+// those paths.  The counterexample is replayed natively with the real validators.
+#[cfg(kani)]
+pub fn from_utf8_complete_stub(input: &[u8]) -> Result<&str, simdutf8::basic::Utf8Error> {
+    crate::vassert!(utf8_model(input), "C07|validator.partial_utf8|a UTF-8 check ran on bytes that are not a completely read, valid field of the frame (validation before the operand is fully read)");
+    Ok(unsafe { std::str::from_utf8_unchecked(input) })
+}
+
+#[cfg(kani)]
+pub fn topic_name_complete_stub(value: &str) -> bool {
+    crate::vassert!(topic_name_bytes_ok(value.as_bytes()), "C07|validator.partial_name|the topic-name check ran on bytes that are not a completely read, valid field of the frame");
+    false
+}
+
+#[cfg(kani)]
+pub fn topic_filter_complete_stub(value: &str) -> (bool, u16) {
+    if value.len() == 0 {
+        return (true, 0);
+    }
+    crate::vassert!(plain_filter_bytes_ok(value.as_bytes()), "C07|validator.partial_filter|the topic-filter check ran on bytes that are not a completely read, valid field of the frame");
+    (false, 0)
+}
+
 /// `vec![elem; n]` with a fixed capacity: keeps the heap object's size concrete when `n` is a
 /// symbolic term (R2).  For n > K the block is K elements long while `len` says n, so any access
 /// beyond K is caught by CBMC's bounds checks instead of being missed.
